@@ -1112,12 +1112,18 @@ fn proof_from_another_point_of_view(
             views.push(View { branch: own.branch, height: rng.range(1, own.height - 1) });
         }
     }
-    if views.is_empty() {
+    // ... or the own, requested point of view, but the (self-consistent, proven) answer to a
+    // different question: one requested block / transaction replaced by another real one
+    let substitute = op % 3 == 0 && rng.chance(1, 2);
+    if views.is_empty() && !substitute {
         return None;
+    }
+    let m = packed::LightClientMessageReader::from_compatible_slice(data).ok()?;
+    if substitute {
+        return proof_for_another_question(sim, own, &m, rng);
     }
     let view = *rng.pick(&views);
     let last_hash = world.block(view.branch, view.height).hash();
-    let m = packed::LightClientMessageReader::from_compatible_slice(data).ok()?;
     match m.to_enum() {
         packed::LightClientMessageUnionReader::SendBlocksProof(r) => {
             let mut hashes: Vec<Byte32> = r.headers().iter().map(|h| h.to_entity().calc_header_hash()).collect();
@@ -1131,6 +1137,58 @@ fn proof_from_another_point_of_view(
             }
             hashes.extend(r.missing_tx_hashes().iter().map(|h| h.to_entity()));
             txs_pov(world, view, last_hash, hashes, r.count_extra_fields() > 0)
+        }
+        _ => None,
+    }
+}
+
+fn proof_for_another_question(
+    sim: &Sim,
+    own: View,
+    m: &packed::LightClientMessageReader,
+    rng: &mut Rng,
+) -> Option<(Bytes, String)> {
+    let world = &sim.world;
+    match m.to_enum() {
+        packed::LightClientMessageUnionReader::SendBlocksProof(r) => {
+            let last_hash = r.last_header().header().to_entity().calc_header_hash();
+            let last_number = world.number_on_branch(own.branch, &last_hash, own.height)?;
+            let mut hashes: Vec<Byte32> = r.headers().iter().map(|h| h.to_entity().calc_header_hash()).collect();
+            hashes.extend(r.missing_block_hashes().iter().map(|h| h.to_entity()));
+            if hashes.is_empty() || last_number < 2 {
+                return None;
+            }
+            let i = rng.usize_below(hashes.len());
+            let other = world.block(own.branch, rng.range(0, last_number - 1)).hash();
+            if hashes.contains(&other) {
+                return None;
+            }
+            hashes[i] = other;
+            let view = View { branch: own.branch, height: last_number };
+            blocks_pov(world, view, last_hash, hashes, r.count_extra_fields() > 0)
+                .map(|(b, _)| (b, format!("proven answer for another block instead of requested block {}", i)))
+        }
+        packed::LightClientMessageUnionReader::SendTransactionsProof(r) => {
+            let last_hash = r.last_header().header().to_entity().calc_header_hash();
+            let last_number = world.number_on_branch(own.branch, &last_hash, own.height)?;
+            let mut hashes: Vec<Byte32> = Vec::new();
+            for fb in r.filtered_blocks().iter() {
+                hashes.extend(fb.transactions().iter().map(|t| t.to_entity().calc_tx_hash()));
+            }
+            hashes.extend(r.missing_tx_hashes().iter().map(|h| h.to_entity()));
+            if hashes.is_empty() || last_number < 2 {
+                return None;
+            }
+            let i = rng.usize_below(hashes.len());
+            let blk = world.block(own.branch, rng.range(0, last_number - 1));
+            let other = blk.view.transactions()[0].hash();
+            if hashes.contains(&other) {
+                return None;
+            }
+            hashes[i] = other;
+            let view = View { branch: own.branch, height: last_number };
+            txs_pov(world, view, last_hash, hashes, r.count_extra_fields() > 0)
+                .map(|(b, _)| (b, format!("proven answer for another transaction instead of requested transaction {}", i)))
         }
         _ => None,
     }
